@@ -1,7 +1,7 @@
 (* C15 — Cache-wrapped stores behave like an overlay that is applied atomically.
    Statements only; every proof is [exact <lemma>]. *)
 From Coq Require Import List NArith Bool.
-From PM Require Import Base.Bytes Store.KV Store.MergeProofs Store.KVProofs.
+From PM Require Import Base.Bytes Store.KV Store.MergeProofs Store.KVProofs Store.DirtyProofs.
 Import ListNotations.
 
 (* iteration: the merge iterator state machine (skipUntilExistsOrInvalid/Key/Value/Next as
@@ -36,6 +36,32 @@ Proof. exact (write_refines c p w). Qed.
 Theorem C15_view c m k : cache_ok c m -> dsorted true m -> aget (cache_abs c m) k = view c m k.
 Proof. exact (cache_abs_view c m k). Qed.
 
+(* what cachekv.iterator hands to the merge iterator - dirtyItems (unsorted cache -> sorted linked list, stale
+   entries replaced) followed by newMemIterator's scan - is EXACTLY the dirty entries of the cache in the range,
+   in iteration order, with their current values; [dinv] is the invariant of (cache, unsortedCache, sortedCache) *)
+Theorem C15_cache_items_are_the_dirty_entries c s e asc : dinv c ->
+  mem_items (dirty_items c s e) s e asc = dir asc (filter (fun it => in_domain (fst it) s e) (dlist c)).
+Proof. exact (mem_items_are_the_dirty_entries c s e asc). Qed.
+(* iterating a nest of cache stores of any depth, any range, either direction: exactly the in-range items of the
+   overlaid view, in order; the parent is untouched and the invariants are kept *)
+Theorem C15_iterator_is_the_overlaid_view s st en asc w : nest_ok s -> dnest s ->
+  exists l s', s_iter s st en asc w = (Ok (IList l), s', w) /\ l = kv_range (abs s) st en asc /\
+               nest_ok s' /\ dnest s' /\ abs s' = abs s.
+Proof. exact (iter_refines s st en asc w). Qed.
+(* the structural invariant is kept by every other operation as well *)
+Theorem C15_structure_kept_by_get s k w r s' w' : dnest s -> s_get s k w = (r, s', w') -> dnest s'.
+Proof. exact (s_get_dnest s k w r s' w'). Qed.
+Theorem C15_structure_kept_by_has s k w r s' w' : dnest s -> s_has s k w = (r, s', w') -> dnest s'.
+Proof. exact (s_has_dnest s k w r s' w'). Qed.
+Theorem C15_structure_kept_by_set s k v w r s' w' : dnest s -> s_set s k v w = (r, s', w') -> dnest s'.
+Proof. exact (s_set_dnest s k v w r s' w'). Qed.
+Theorem C15_structure_kept_by_delete s k w r s' w' : dnest s -> s_delete s k w = (r, s', w') -> dnest s'.
+Proof. exact (s_delete_dnest s k w r s' w'). Qed.
+Theorem C15_structure_kept_by_write s w r s' w' : dnest s -> c_write s w = (r, s', w') -> dnest s'.
+Proof. exact (c_write_dnest s w r s' w'). Qed.
+Example C15_ex_dnest : dnest (Cache c_empty (Cache c_empty (Base [([1], [10]); ([2], [20]); ([3], [30])]%N))).
+Proof. simpl. split; [exact dinv_empty|split; [exact dinv_empty|exact I]]. Qed.
+
 (* non-vacuity *)
 Example C15_ex_nest_ok :
   nest_ok (Cache c_empty (Cache c_empty (Base [([1], [10]); ([2], [20]); ([3], [30])]%N))).
@@ -58,6 +84,8 @@ Proof. vm_compute. split; reflexivity. Qed.
 
 Print Assumptions C15_merge_iterator_is_overlay.
 Print Assumptions C15_merge_iterator_total.
+Print Assumptions C15_cache_items_are_the_dirty_entries.
+Print Assumptions C15_iterator_is_the_overlaid_view.
 Print Assumptions C15_get.
 Print Assumptions C15_set.
 Print Assumptions C15_write.
